@@ -443,6 +443,8 @@ impl Vm {
     pub fn reset(&mut self) {
         #[cfg(yarel_verif)]
         verif::emit(verif::EV_VM, "{\"e\":\"Reset\"}".to_string());
+        #[cfg(yarel_verif)]
+        verif::forget_chunks();
         self.reset_stack();
         self.chunks = self.core_chunks.clone();
         self.modules.retain(|&k, _| k.as_str() == "main");
@@ -582,6 +584,10 @@ impl Vm {
                 println!("          {}", self.active_fiber().stack);
                 let offset = self.active_chunk.code_offset(self.ip);
                 debug::disassemble_instruction(&self.active_chunk, offset);
+            }
+            #[cfg(yarel_verif)]
+            if verif::wants(verif::EV_OPS) {
+                self.verif_op();
             }
             let byte = self.read_byte();
 
@@ -2072,6 +2078,82 @@ impl Vm {
                 self.handling_exception as u8,
                 callers,
                 extra
+            ),
+        );
+    }
+
+    /// One event per executed instruction, emitted before it is fetched: the chunk
+    /// (by address; its code is announced once by a `Chunk` event), the offset of the
+    /// instruction, the value-stack height, the running frame's first slot, the frame
+    /// and handler counts and the in-flight flag.
+    #[cfg(yarel_verif)]
+    fn verif_op(&self) {
+        let f = match self.fiber.as_ref() {
+            Some(f) => f,
+            None => return,
+        };
+        let fiber = f.borrow();
+        let frame = match fiber.current_frame() {
+            Some(frame) => *frame,
+            None => return,
+        };
+        let function = frame.closure.function;
+        let chunk: &Chunk = &function.chunk;
+        let address = chunk as *const Chunk as usize;
+        if verif::announce_chunk(address) {
+            let mut kinds = String::new();
+            let mut upvalues = String::new();
+            for (i, constant) in chunk.constants.iter().enumerate() {
+                if i > 0 {
+                    kinds.push(',');
+                    upvalues.push(',');
+                }
+                match constant {
+                    Value::ObjFunction(g) => {
+                        kinds.push_str("\"fn\"");
+                        upvalues.push_str(&g.upvalue_count.to_string());
+                    }
+                    Value::ObjString(_) => {
+                        kinds.push_str("\"str\"");
+                        upvalues.push('0');
+                    }
+                    Value::Number(_) => {
+                        kinds.push_str("\"num\"");
+                        upvalues.push('0');
+                    }
+                    _ => {
+                        kinds.push_str("\"other\"");
+                        upvalues.push('0');
+                    }
+                }
+            }
+            let code: Vec<String> = chunk.code.iter().map(|b| b.to_string()).collect();
+            verif::emit(
+                verif::EV_OPS,
+                format!(
+                    "{{\"e\":\"Chunk\",\"c\":{},\"name\":{},\"arity\":{},\"upv\":{},\"code\":[{}],\"ckind\":[{}],\"cupv\":[{}]}}",
+                    address,
+                    verif::json_str(function.name.as_str()),
+                    function.arity,
+                    function.upvalue_count,
+                    code.join(","),
+                    kinds,
+                    upvalues
+                ),
+            );
+        }
+        verif::emit(
+            verif::EV_OPS,
+            format!(
+                "{{\"e\":\"Op\",\"c\":{},\"pc\":{},\"sl\":{},\"sb\":{},\"nf\":{},\"nh\":{},\"hx\":{},\"fib\":{}}}",
+                address,
+                self.ip as usize - chunk.code.as_ptr() as usize,
+                fiber.stack.len(),
+                frame.slot_base,
+                fiber.frames.len(),
+                fiber.exc_handlers.len(),
+                self.handling_exception as u8,
+                (**f).as_ptr() as usize
             ),
         );
     }
